@@ -139,8 +139,32 @@ class CFG:
         if isinstance(fn, ast.Lambda):
             return
         TOP, NN, NNT, UNSET = ("top",), ("notnone",), ("notnone-truthy",), ("unset",)
+        # module-level sentinels: `_MISSING = object()` bound once at top level.  A local holds the sentinel only where it was
+        # assigned that very name; the result of a call, a display or a constant is never that object
+        sentinels: set[str] = set()
+        mod = getattr(self.func, "module", None)
+        if mod is not None:
+            for nm, vals in getattr(mod, "assigns", {}).items():
+                if len(vals) == 1 and isinstance(vals[0], ast.Call) and isinstance(vals[0].func, ast.Name) and vals[0].func.id == "object" and not vals[0].args and not vals[0].keywords:
+                    sentinels.add(nm)
+        local_stores = {x.id for x in ast.walk(fn) if isinstance(x, ast.Name) and isinstance(x.ctx, (ast.Store, ast.Del))} if not isinstance(fn, ast.Lambda) else set()
+        sentinels -= local_stores
+
+        imported = set(getattr(mod, "imports", {}) or {}) if mod is not None else set()
 
         def abstract(v: ast.expr):
+            if isinstance(v, ast.Name) and v.id in sentinels:
+                return ("s", v.id)
+            if sentinels and isinstance(v, ast.Call):
+                # the result of a function of ANOTHER module (hkjson.loads(..), int(..)) cannot be a sentinel object private to
+                # this module; it can be anything else (also None / falsy): "fresh"
+                f_ = v.func
+                base_ = f_.value if isinstance(f_, ast.Attribute) else f_
+                while isinstance(base_, ast.Attribute):
+                    base_ = base_.value
+                if isinstance(base_, ast.Name) and base_.id in imported and base_.id not in local_stores and all(s_.startswith("_") for s_ in sentinels) \
+                        and not any(isinstance(y_, ast.Name) and y_.id in sentinels for a_ in list(v.args) + [k_.value for k_ in v.keywords] for y_ in ast.walk(a_)):
+                    return ("fresh",)
             if isinstance(v, ast.Constant):
                 return ("c", type(v.value).__name__, v.value)
             if isinstance(v, ast.JoinedStr):
@@ -171,6 +195,19 @@ class CFG:
         def decide(val, test: ast.expr):
             """outcome of ``test`` for abstract value ``val``: True / False / None (not decided)"""
             if val in (TOP, UNSET):
+                return None
+            if val == ("fresh",) and not (isinstance(test, ast.Compare) and isinstance(test.comparators[0], ast.Name)):
+                return None
+            if isinstance(test, ast.Compare) and isinstance(test.comparators[0], ast.Name):
+                # `x is SENTINEL` / `x is not SENTINEL`
+                same = val == ("s", test.comparators[0].id)
+                return same if isinstance(test.ops[0], ast.Is) else not same
+            if val[0] == "s":
+                # the sentinel object tested otherwise: not None, truthy (a plain object())
+                if isinstance(test, ast.Name):
+                    return True
+                if isinstance(test.ops[0], (ast.Is, ast.IsNot)) and isinstance(test.comparators[0], ast.Constant) and test.comparators[0].value is None:
+                    return isinstance(test.ops[0], ast.IsNot)
                 return None
             if val[0] == "m":
                 if isinstance(test, ast.Name):
@@ -203,6 +240,9 @@ class CFG:
                 return e.id
             if isinstance(e, ast.Compare) and len(e.ops) == 1 and isinstance(e.left, ast.Name) and isinstance(e.comparators[0], ast.Constant) \
                     and isinstance(e.ops[0], (ast.Is, ast.IsNot, ast.Eq, ast.NotEq)):
+                return e.left.id
+            if isinstance(e, ast.Compare) and len(e.ops) == 1 and isinstance(e.left, ast.Name) and isinstance(e.ops[0], (ast.Is, ast.IsNot)) \
+                    and isinstance(e.comparators[0], ast.Name) and e.comparators[0].id in sentinels and e.left.id not in sentinels:
                 return e.left.id
             return None
 
